@@ -10,6 +10,10 @@ from .facts import const_int
 
 DIFFOP = "types::DiffOp"
 
+MUTATORS = ("std::ops::IndexMut::index_mut", "std::vec::Vec::<T, A>::insert", "std::vec::Vec::<T, A>::remove",
+            "std::vec::Vec::<T, A>::push", "core::slice::<impl [T]>::swap", "std::vec::Vec::<T, A>::swap_remove",
+            "core::slice::<impl [T]>::get_mut", "std::vec::Vec::<T, A>::truncate", "std::vec::Vec::<T, A>::clear")
+
 ORDER_CALLEES = {
     "core::slice::<impl [T]>::swap": "slice::swap",
     "core::slice::<impl [T]>::reverse": "slice::reverse",
@@ -31,7 +35,6 @@ ORDER_CALLEES = {
     "alloc::slice::<impl [T]>::sort_by_key": "slice::sort_by_key",
     "std::vec::Vec::<T, A>::swap_remove": "Vec::swap_remove",
     "std::mem::swap": "mem::swap",
-    "std::mem::replace": "mem::replace",
     "std::ptr::swap": "ptr::swap",
 }
 
@@ -171,4 +174,197 @@ def rule_G2(prog):
                 r.find(fn.path, "stale-via:" + f.fn + ":" + f.detail,
                        "%s computes hunk extents from the carried index of the first/last op while %s (%s) leaves "
                        "carried indices stale" % (fn.path, f.fn, f.detail), file=fn.file, line=fn.line)
+    return r
+
+
+# ------------------------------------------------------------------ G3: conservation on removal
+def _lin_idx(m, term):
+    from .cursor import lin, norm
+    return norm(lin(m, term))
+
+
+def _elem_index_of(m, term, depth=0):
+    """If `term` is (a copy of) an element of an op list, return the linear form of its index, else None.
+    Recognises ops[i], *ops.get(i), and the while-let header `i.checked_sub(1).and_then(|x| ops.get(x))`."""
+    from .guard import strip
+    t = strip(term)
+    if not isinstance(t, tuple) or depth > 10:
+        return None
+    if t[0] in ("field", "downcast", "deref"):
+        return _elem_index_of(m, t[1], depth + 1)
+    if t[0] == "call":
+        p = t[1]
+        if p.endswith("Index::index") or p.endswith("IndexMut::index_mut") or p.endswith("<impl [T]>::get") or p.endswith("<impl [T]>::get_mut"):
+            return _lin_idx(m, t[2][1]) if len(t[2]) > 1 else None
+        if p.endswith("Option::<T>::and_then") and t[2]:
+            inner = strip(t[2][0])
+            if isinstance(inner, tuple) and inner and inner[0] == "call" and len(inner[2]) == 2:
+                base = _lin_idx(m, inner[2][0])
+                k = inner[2][1]
+                if isinstance(k, tuple) and k[0] == "const" and isinstance(k[1], int):
+                    if inner[1].endswith("checked_sub"):
+                        base["#"] = base.get("#", 0) - k[1]
+                        return {a: b for a, b in base.items() if b}
+                    if inner[1].endswith("checked_add"):
+                        base["#"] = base.get("#", 0) + k[1]
+                        return {a: b for a, b in base.items() if b}
+            return None
+        if p.endswith("Option::<T>::map") or p.endswith("Option::<T>::copied") or p.endswith("Option::<T>::unwrap"):
+            return _elem_index_of(m, t[2][0], depth + 1) if t[2] else None
+    if t[0] == "local" and isinstance(t[2], int) and t[2] > m.arg_count:
+        e = m.expand(t, depth=1)
+        if e != t:
+            return _elem_index_of(m, e, depth + 1)
+    return None
+
+
+def rule_G3(prog):
+    r = RuleResult("G3", "conservation on removal: every `ops.remove(i)` on a list of DiffOp either removes an op shown "
+                         "empty (`ops[i].is_empty()` on the dominating branch) or is preceded, in the same arm, by a "
+                         "grow_right/grow_left of a neighbour whose amount is the range length of that very op `ops[i]` "
+                         "(the merged op takes over exactly the removed items)")
+    from .facts import term_str
+    from .guard import strip
+    for fn in prog.user_fns():
+        if not fn.mir:
+            continue
+        m = fn.mir
+        for bb, t in m.calls():
+            c = m.callee(t)
+            if not c or c["path"] != "std::vec::Vec::<T, A>::remove" or not _mentions_diffop(c["args"]):
+                continue
+            r.instances += 1
+            idx = _lin_idx(m, m.resolve_operand(t["args"][1]))
+            verdict = None
+            # (a) guarded by is_empty of the same element
+            for b2, t2 in m.calls():
+                c2 = m.callee(t2)
+                if c2 and c2["path"] == "types::DiffOp::is_empty" and m.dominates(b2, bb) and b2 != bb:
+                    ei = _elem_index_of(m, m.resolve_operand(t2["args"][0]))
+                    if ei == idx:
+                        # the remove must be on the true edge
+                        sw = m.blocks[t2["target"]]["term"] if t2["target"] is not None else None
+                        if sw and sw["k"] == "switch":
+                            true_t = sw["otherwise"] if sw["values"] == ["0"] else None
+                            if true_t is not None and (true_t == bb or m.dominates(true_t, bb)):
+                                verdict = "guarded by ops[%s].is_empty()" % _fmt_idx(idx)
+            # (b) merge: a grow of a neighbour by the removed op's length
+            if verdict is None:
+                for b2, t2 in m.calls():
+                    c2 = m.callee(t2)
+                    if not c2 or c2["path"] not in ("types::DiffOp::grow_right", "types::DiffOp::grow_left"):
+                        continue
+                    if not (m.dominates(b2, bb) and b2 != bb):
+                        continue
+                    if any(h in m.reach_from([t2["target"]]) and m.dominates(h, bb) and h != bb and not m.dominates(h, b2)
+                           for h, _ in m.loops()):
+                        continue
+                    amt = strip(m.resolve_operand(t2["args"][1]))
+                    src = None
+                    if isinstance(amt, tuple) and amt and amt[0] == "call" and amt[1].endswith("ExactSizeIterator::len"):
+                        rng = strip(amt[2][0])
+                        if isinstance(rng, tuple) and rng and rng[0] == "call" and rng[1] in ("types::DiffOp::new_range", "types::DiffOp::old_range"):
+                            src = _elem_index_of(m, rng[2][0])
+                    target = _elem_index_of(m, m.resolve_operand(t2["args"][0]))
+                    if src is not None and src == idx and target != idx:
+                        verdict = "merged into ops[%s] by %s(len of ops[%s])" % (_fmt_idx(target or {}), c2["path"].rsplit("::", 1)[-1], _fmt_idx(src))
+                        break
+                    elif src is not None:
+                        verdict = None
+                        bad = "neighbour grows by the length of ops[%s], but ops[%s] is removed" % (_fmt_idx(src), _fmt_idx(idx))
+                        r.ob(False, "%s: `%s` line %d: %s" % (fn.path, t.get("src", ""), t["line"], bad))
+                        r.find(fn.path, "merge-amount:%s" % _fmt_idx(idx),
+                               "`%s` removes ops[%s] after `%s` grew its neighbour by the length of ops[%s]: the merged op does "
+                               "not take over exactly the removed items" % (t.get("src", ""), _fmt_idx(idx), t2.get("src", ""), _fmt_idx(src)),
+                               file=fn.file, line=t["line"])
+                        verdict = "BAD"
+                        break
+            if verdict == "BAD":
+                continue
+            r.ob(verdict is not None, "%s: `%s` line %d: %s" % (fn.path, t.get("src", ""), t["line"], verdict or "UNJUSTIFIED"))
+            if verdict is None:
+                r.find(fn.path, "unjustified-remove:%s" % _fmt_idx(idx),
+                       "`%s` removes ops[%s], which is neither shown empty nor merged into a neighbour (its items vanish "
+                       "from the script)" % (t.get("src", ""), _fmt_idx(idx)), file=fn.file, line=t["line"])
+    return r
+
+
+def _fmt_idx(d):
+    if not d:
+        return "0"
+    parts = []
+    for k, v in sorted(d.items(), key=lambda kv: (kv[0] == "#", kv[0])):
+        if k == "#":
+            parts.append("%+d" % v)
+        else:
+            parts.append(k if v == 1 else "%d*%s" % (v, k))
+    return "".join(parts)
+
+
+# ------------------------------------------------------------------ G5: stale snapshot
+def rule_G5(prog):
+    r = RuleResult("G5", "no stale snapshot: a DiffOp copied out of an op list before a loop is not read inside that loop "
+                         "if the loop mutates the list (the copy no longer describes ops[i] after a shift/grow/insert)")
+    from .facts import term_str
+    for fn in prog.user_fns():
+        if not fn.mir:
+            continue
+        m = fn.mir
+        loops = m.loops()
+        if not loops:
+            continue
+        snaps = {}
+        for l, decl in enumerate(m.locals):
+            if l <= m.arg_count or not decl.get("name"):
+                continue
+            if not (isinstance(decl["ty"], dict) and decl["ty"].get("k") == "adt" and decl["ty"].get("path") == DIFFOP):
+                continue
+            defs = m.defs().get(l, [])
+            if not defs:
+                continue
+            idxs = []
+            for d in defs:
+                if d[2] != "assign":
+                    idxs = None
+                    break
+                e = _elem_index_of(m, m.resolve_rvalue(d[3]))
+                if e is None:
+                    idxs = None
+                    break
+                idxs.append((d[0], e))
+            if idxs:
+                snaps[l] = idxs
+        if not snaps:
+            continue
+        for h, body in loops:
+            mut = [b for b in body if m.blocks[b]["term"]["k"] == "call" and (m.callee(m.blocks[b]["term"]) or {}).get("path") in MUTATORS
+                   and _mentions_diffop((m.callee(m.blocks[b]["term"]) or {}).get("args", []))]
+            # helper methods taking &mut DiffOp obtained from index_mut are covered by the index_mut call itself
+            if not mut:
+                continue
+            for l, idxs in snaps.items():
+                r.instances += 1
+                def_blocks = [b for b, _ in idxs]
+                if any(b in body for b in def_blocks):
+                    r.ob(True, "%s: %s is re-read from the list inside the loop at bb%d" % (fn.path, m.local_name(l), h))
+                    continue
+                from .cursor import _rv_locals, _op_locals
+                reads = []
+                for b in body:
+                    for s_ in m.blocks[b]["stmts"]:
+                        if s_["k"] == "assign" and l in _rv_locals(s_["rv"]):
+                            reads.append(s_["line"])
+                    t = m.blocks[b]["term"]
+                    if t["k"] == "call":
+                        for a in t["args"]:
+                            if l in _op_locals(a):
+                                reads.append(t["line"])
+                ok = not reads
+                r.ob(ok, "%s: snapshot %s (taken outside the loop at bb%d) read inside the mutating loop: %s" % (
+                    fn.path, m.local_name(l), h, reads or "no"))
+                if reads:
+                    r.find(fn.path, "stale-snapshot:%s" % m.local_name(l),
+                           "`%s` is copied from the op list before the loop but read inside it (line %d) although the loop "
+                           "mutates the list: after the first shift/grow/insert the copy is stale" % (m.local_name(l), reads[0]),
+                           file=fn.file, line=reads[0])
     return r
